@@ -15,7 +15,7 @@
 (*  op = "kmerof": KmerOf of an arbitrary text.                            *)
 (*                                                                         *)
 (* Short sequences ("tiny") are judged with Occ and DeclVisits directly,   *)
-(* longer ones through the table of window codes (lemma OccByCodes,        *)
+(* longer ones through the table of window codes (last part of IndexExact,        *)
 (* checked by TLC in KmerMC).                                              *)
 (***************************************************************************)
 EXTENDS Kmer
